@@ -914,6 +914,7 @@ func (wallet *Wallet) ProcWalletSetPasswd(Passwd *types.ReqWalletSetPasswd) erro
 	}()
 
 	// 钱包已经加密需要验证oldpass的正确性
+	verifDelay("setpasswd-before-oldpass-check")
 	if len(wallet.Password) == 0 && wallet.EncryptFlag == 1 {
 		isok := wallet.walletStore.VerifyPasswordHash(Passwd.OldPass)
 		if !isok {
@@ -1019,6 +1020,7 @@ func (wallet *Wallet) ProcWalletUnLock(WalletUnLock *types.WalletUnLock) error {
 		return types.ErrSaveSeedFirst
 	}
 	// 钱包已经加密需要验证passwd的正确性
+	verifDelay("unlock-before-passwd-check")
 	if len(wallet.Password) == 0 && wallet.EncryptFlag == 1 {
 		isok := wallet.walletStore.VerifyPasswordHash(WalletUnLock.Passwd)
 		if !isok {
